@@ -7,6 +7,7 @@ B: random integer operands are pushed through every path; the recorded results
    from the independent oracle in units, bounded by the trace spec.
 """
 import numpy as np
+import quaternion
 from scipy import sparse
 
 from .. import par
@@ -149,6 +150,25 @@ def _replay_state(st):
             fails.append(("product." + p, "ProductIsHamilton",
                           {"A": st["A"], "B": st["B"], "ea": ea, "eb": eb,
                            "expected": st["out"]["C"], "got": got}))
+    # 1-D operands (a vector given as shape (k,) instead of (1,k) / (k,1)): the values are those of the row / column product
+    u1 = lib().utils
+    one_d = []
+    if FA.shape[0] == 1:
+        vq = quaternion.as_quat_array(FA[0].copy())
+        one_d += [("d1.d", lambda: u1.quat_matmat(vq, q_from_float(FB)), expC[0]), ("d1.s", lambda: u1.quat_matmat(vq, _sp(FB)), expC[0])]
+    if FB.shape[1] == 1:
+        wq = quaternion.as_quat_array(FB[:, 0].copy())
+        one_d += [("d.d1", lambda: u1.quat_matmat(q_from_float(FA), wq), expC[:, 0]), ("s.d1", lambda: u1.quat_matmat(_sp(FA), wq), expC[:, 0])]
+    for name, got, want1 in one_d:
+        n += 1
+        try:
+            G = got()
+            G = _sp_dense(G) if (hasattr(G, "real") and hasattr(G, "k") and not isinstance(G, np.ndarray)) else q_to_float(np.asarray(G))
+            okc = G.size == want1.size and np.array_equal(G.reshape(want1.shape), want1)
+        except Exception as e:  # noqa
+            okc = False
+        if not okc:
+            fails.append(("product." + name, "ProductIsHamilton", {"A": st["A"], "B": st["B"], "ea": ea, "eb": eb, "one_dimensional_operand": True}))
     # aliased operands: the SAME object as both factors (in-place shortcuts must not read what they overwrite)
     if FA.shape[0] == FA.shape[1]:
         want = omul(FA, FA)
